@@ -227,3 +227,43 @@ class MeasAdd(_MeasAddSub):
 class MeasSub(_MeasAddSub):
     qual = "measured.Measurement.__sub__"
     sign = -1
+
+
+# not registered: the path space of the interval comparison (four Quantity arithmetic results, four
+# total_ordering comparisons with reflected fallbacks) exceeds the budget; bounded stand-in of C12 only
+class MeasEq(Contract):
+    """Measurement.__eq__: interval overlap, a plain bool for every operand type"""
+    qual = "measured.Measurement.__eq__"
+    props = ("C12",)
+    inv = ("I_D", "I_P", "I_U")
+    modifies = MODS
+    types = {"other": [T_MEAS, T_QTY, ("int",), ("other",)]}
+    ret = ("bool",)
+
+    def requires(self, c, a):
+        yield "wf-self", wf_meas(c, a.self)
+        yield "offset-free-self", offset_free_m(c.fz("Unit", unit_of(c, a.self), "factors"))
+        if isinstance(a.other, VObj) and a.other.cls == "Measurement":
+            yield "wf-other", wf_meas(c, a.other)
+        if isinstance(a.other, VObj) and a.other.cls == "Quantity":
+            yield "wf-other", z3.And(wf_qty(c, a.other), mkind(c, a.other) != K_DEC)
+        if isinstance(a.other, VObj) and a.other.cls in ("Measurement", "Quantity"):
+            yield "offset-free-other", offset_free_m(c.fz("Unit", unit_of(c, a.other), "factors"))
+
+    def ensures(self, c, a, r):
+        o = c.old
+        if not isinstance(r, VBool):
+            yield "returns-bool", z3.BoolVal(False)
+            return
+        if not (isinstance(a.other, VObj) and a.other.cls in ("Measurement", "Quantity")):
+            yield "other-types-unequal", z3.Not(r.z)
+            return
+        us, uo = unit_of(o, a.self), unit_of(o, a.other)
+        same_dim = o.fz("Unit", us, "dimension") == o.fz("Unit", uo, "dimension")
+        Fs, Fo = o.fz("Unit", us, "factors"), o.fz("Unit", uo, "factors")
+        comparable = z3.And(same_dim, z3.Or(Fs == Fo, z3.Not(noconv(Fs, Fo)), z3.Not(noconv(Fo, Fs))))
+        lo_s, hi_s = as_interval(o, a.self)
+        lo_o, hi_o = as_interval(o, a.other)
+        yield "different-dimension-unequal", z3.Implies(z3.Not(same_dim), z3.Not(r.z))
+        yield "overlap", z3.Implies(comparable, r.z == z3.And(lo_s <= hi_o, lo_o <= hi_s))
+        yield "incomparable-unequal", z3.Implies(z3.And(same_dim, z3.Not(comparable)), z3.Not(r.z))
